@@ -27,6 +27,29 @@ def main():
 
     methods = [I.RK45CKSolver, I.RK4Solver, I.DOPRI45, I.RK8713MSolver, I.ImplicitMidpoint, I.RadauIIA5, I.SymplecticEulerSolver, I.ABAs5o6HSolver]
     rich = I.generate_richardson_integrator(I.RK4Solver, 3)
+    # deep extrapolation tables (the refinement may stop early once converged): the pieces handed out must be those of *this* step --
+    # ordered, tiling the recorded range, ending at the recorded end point
+    for levels in (6,):
+        deep = I.generate_richardson_integrator(I.RK4Solver, levels)
+        for span in ((0.0, 3.0), (0.0, -3.0)):
+            a = de.OdeSystem(rhs, y0=np.array([1.0, 0.0]), t=span, dt=0.2, dense_output=True, rtol=1e-9, atol=1e-9)
+            a.method = deep
+            try:
+                a.integrate()
+            except Exception as e:
+                fail("raises", method="Richardson(RK4,%d)" % levels, span=span, cause=repr(e.__cause__)[:80])
+                continue
+            cases += 1
+            te = np.asarray([float(x) for x in a.sol.t_eval])
+            sgn = 1.0 if span[1] > span[0] else -1.0
+            if not np.all(np.diff(te) > 0):
+                fail("sub-divided-step-pieces-out-of-order", method="Richardson(RK4,%d)" % levels, span=span, n=len(te))
+            elif abs((te[-1] if sgn > 0 else te[0]) - float(a.t[-1])) > 1e-9:
+                fail("sub-divided-step-pieces-do-not-end-at-the-recorded-end", method="Richardson(RK4,%d)" % levels, span=span)
+            else:
+                bad = max(float(np.max(np.abs(a.sol(float(tt)) - yy))) for tt, yy in zip(a.t, a.y))
+                if bad > 1e-4:
+                    fail("nodes-not-reproduced", method="Richardson(RK4,%d)" % levels, span=span, err_scalar=bad)
     for m in methods + [rich]:
         for span in ((0.0, 3.0), (0.0, -3.0)):
             name = getattr(m, "__name__", str(m))
